@@ -75,12 +75,51 @@ fn check_graph(model: &mut Model, g: &Graph) -> Vec<String> {
 
 fn oracle(model: &mut Model, h: &History) -> Option<(usize, String)> {
     let mut bad: Option<(usize, String)> = None;
+    // the rendered text of every note after the previous operation
+    let mut prev: std::collections::BTreeMap<String, String> = Default::default();
     let states = hist::run_impl(h, |step, g| {
-        if bad.is_none() {
-            let p = check_graph(model, g);
-            if !p.is_empty() {
-                bad = Some((step, p.join(" | ")));
+        if bad.is_some() {
+            return;
+        }
+        let mut p = check_graph(model, g);
+        // the text content (line slot) of a live block is its own: no two live blocks share one
+        let mut slots: std::collections::HashMap<usize, u64> = Default::default();
+        for n in g.nodes().iter().filter(|n| !n.is_empty()) {
+            if let Some(l) = n.line_id() {
+                if let Some(other) = slots.insert(l as usize, n.id()) {
+                    p.push(format!("live blocks {} and {} share the text slot {}", other, n.id(), l));
+                }
             }
+        }
+        // an operation on one note does not disturb the blocks of another note
+        let touched = if step == 0 { None } else { h.steps.get(step - 1).map(|(k, _)| liwe::model::Key::from_file_name(k).to_string()) };
+        let mut now: std::collections::BTreeMap<String, String> = Default::default();
+        for k in g.keys() {
+            // the stored blocks of the note (ids, links, stored text), not its rendering: rendering reads
+            // the titles of other notes by design (C06)
+            if let Ok(t) = dump::catch(|| {
+                let root = g.get_node_id(&k).unwrap();
+                let mut ids = vec![root];
+                ids.extend(g.node(root).get_all_sub_nodes());
+                ids.iter().map(|id| format!("{} ", dump::gnode(g, &g.graph_node(*id)))).collect::<String>()
+            }) {
+                now.insert(k.to_string(), t);
+            }
+        }
+        if step > 0 {
+            for (k, before) in &prev {
+                if Some(k) != touched.as_ref() {
+                    match now.get(k) {
+                        Some(after) if after == before => {}
+                        Some(after) => p.push(format!("the update of {:?} changed note {:?}: {:?} became {:?}", touched, k, before.chars().take(120).collect::<String>(), after.chars().take(120).collect::<String>())),
+                        None => p.push(format!("the update of {:?} removed note {:?}", touched, k)),
+                    }
+                }
+            }
+        }
+        prev = now;
+        if !p.is_empty() {
+            bad = Some((step, p.join(" | ")));
         }
     });
     let _ = states;
@@ -88,7 +127,7 @@ fn oracle(model: &mut Model, h: &History) -> Option<(usize, String)> {
 }
 
 pub fn run(ctx: &Ctx, model: &mut Model, rep: &mut Report) {
-    rep.rule = "random libraries (1-5 notes over root and sub-directories, cross-links, all block kinds) and edit histories (update existing / insert new keys); after import and after every step: model arena + keys vs real arena + keys (exact ids), Lean wfCheck on the real arena, navigation (parent, owning note, in-list) of every live id, reachability partition; non-trivial = history with ≥1 step or ≥2 notes; distinct by text".to_string();
+    rep.rule = "random libraries (1-5 notes over root and sub-directories, cross-links, all block kinds) and edit histories (update existing / insert new keys); after import and after every step: model arena + keys vs real arena + keys (exact ids), Lean wfCheck on the real arena, navigation (parent, owning note, in-list) of every live id, reachability partition, no text slot shared by two live blocks, the stored blocks (ids, links, text) of every note not touched by a step unchanged by it; non-trivial = history with ≥1 step or ≥2 notes; distinct by text".to_string();
     if let Some(path) = &ctx.replay {
         let v: serde_json::Value = serde_json::from_str(&std::fs::read_to_string(path).unwrap()).unwrap();
         if let Some(h) = v.get("history").and_then(hist::from_json) {
